@@ -31,8 +31,9 @@ const ROOT: &str = "/workspace";
 /// Logical time = number of 20 ms retry sleeps an actor has taken. The real constants are 1 s grace
 /// (50 sleeps), 2 s server deadline, 8 s client deadline, 500 ms spawn cooldown; the model keeps
 /// their order (grace < server deadline < client deadline, one spawn per client within the horizon).
+/// one retry sleep of the real server loop, on the actor's clock
+const CLOCK_STEP: std::time::Duration = std::time::Duration::from_millis(700);
 const GRACE: u32 = 1;
-const SERVER_DEADLINE: u32 = 3;
 const CLIENT_DEADLINE: u32 = 4;
 
 #[derive(Clone, Copy, Debug, PartialEq, Eq, Hash)]
@@ -123,11 +124,34 @@ impl Shared {
 struct Env {
     pid: u32,
     shared: Arc<Shared>,
+    /// retry sleeps of the real server loop so far: this actor's clock
+    sleeps: AtomicUsize,
+}
+
+impl Env {
+    fn new(pid: u32, shared: Arc<Shared>) -> Self {
+        Env { pid, shared, sleeps: AtomicUsize::new(0) }
+    }
 }
 
 impl ActorEnv for Env {
     fn pid(&self) -> Option<u32> {
         Some(self.pid)
+    }
+    /// Reachability of an advertised endpoint (`http://pid-<n>` is actor n's; a dead owner's
+    /// leftover endpoint never answers).
+    fn ping(&self, endpoint: &str) -> Option<bool> {
+        Some(match endpoint.strip_prefix("http://pid-").and_then(|p| p.parse::<u32>().ok()) {
+            Some(pid) => self.shared.ping(pid),
+            None => false,
+        })
+    }
+    fn clock_offset(&self) -> Option<std::time::Duration> {
+        Some(CLOCK_STEP * self.sleeps.load(Ordering::SeqCst) as u32)
+    }
+    fn on_sleep(&self) -> bool {
+        self.sleeps.fetch_add(1, Ordering::SeqCst);
+        true
     }
     /// The liveness probe is answered at the level of `kill(pid, 0)`: delivered, ESRCH for a dead
     /// pid, EPERM for a live process of another user. `pid_liveness`'s classification runs for real.
@@ -162,56 +186,28 @@ fn sleep(ctx: Option<&ActorCtx>, now: &mut u32) {
     *now += 1;
 }
 
-/// The server's recovery loop (`acquire_authority_lock_with_recovery`, private, async, bound to
-/// reqwest and wall-clock time), restated branch by branch over the public primitives.
-fn server_loop(ctx: Option<&ActorCtx>, w: &Shared) -> Result<AuthorityLockGuard, String> {
-    let mut invalid_since: Option<u32> = None;
-    let mut now = 0u32;
-    loop {
-        match AuthorityLockGuard::try_acquire(&w.data, ROOT) {
-            Ok(lock) => return Ok(lock),
-            Err(err) => {
-                let meta = read_authority_meta(&w.data).unwrap_or(None);
-                let reachable = meta.as_ref().map(|m| w.ping(m.pid)).unwrap_or(false);
-                if reachable {
-                    return Err(format!("store already has an authority (pid {})", meta.unwrap().pid));
-                }
-                match read_authority_lock_record(&w.data) {
-                    Ok(Some(lock)) => {
-                        invalid_since = None;
-                        if lock.workspace_root != ROOT {
-                            return Err("workspace mismatch".into());
-                        }
-                        if matches!(pid_liveness(lock.pid), PidLiveness::Dead) && !reachable {
-                            let cleaned = try_cleanup_stale_authority_files(&w.data, lock.pid, lock.started_at_ms)?;
-                            if cleaned {
-                                continue;
-                            }
-                        }
-                        return Err(err);
-                    }
-                    Ok(None) => {
-                        if now >= SERVER_DEADLINE {
-                            return Err(err);
-                        }
-                    }
-                    Err(lock_err) => {
-                        let since = *invalid_since.get_or_insert(now);
-                        if lock_err.contains("lock json invalid") && now - since >= GRACE && grace_may_elapse(ctx) {
-                            let cleaned = try_cleanup_corrupt_lock_file(&w.data)?;
-                            if cleaned {
-                                invalid_since = None;
-                                continue;
-                            }
-                        }
-                        if now >= SERVER_DEADLINE {
-                            return Err(format!("{err} ({lock_err})"));
-                        }
-                    }
-                }
-                sleep(ctx, &mut now);
-            }
-        }
+/// The server's recovery loop: the REAL `acquire_authority_lock_with_recovery` of server.rs
+/// (exported under the guard). Its environment is seams: reachability of an advertised endpoint
+/// (`ping`), liveness at the level of `kill(pid, 0)`, the monotonic clock and the 20 ms retry
+/// sleep - every sleep advances this actor's clock by CLOCK_STEP and is a scheduling point, so
+/// the loop's own grace period (> 1 s) elapses after two sleeps and its deadline (2 s) after
+/// three; nothing else constrains when they elapse. The future never waits for anything but
+/// the sleep seam, so it is polled in place.
+fn server_loop(_ctx: Option<&ActorCtx>, w: &Shared) -> Result<AuthorityLockGuard, String> {
+    poll_in_place(ripd::verif_export::acquire_authority_lock_with_recovery(&w.data, std::path::Path::new(ROOT)))
+}
+
+fn poll_in_place<F: std::future::Future>(fut: F) -> F::Output {
+    struct Noop;
+    impl std::task::Wake for Noop {
+        fn wake(self: Arc<Self>) {}
+    }
+    let waker = std::task::Waker::from(Arc::new(Noop));
+    let mut cx = std::task::Context::from_waker(&waker);
+    let mut fut = Box::pin(fut);
+    match fut.as_mut().poll(&mut cx) {
+        std::task::Poll::Ready(v) => v,
+        std::task::Poll::Pending => crate::common::machinery_failure("c18: the server recovery loop waited for something that is not a seam"),
     }
 }
 
@@ -406,7 +402,7 @@ fn make_world(sc: Scenario) -> (World, Vec<ActorBody>) {
     // a holder that exists before the execution starts acquires here (sequentially, seams on)
     let mut pre_guard: Option<AuthorityLockGuard> = None;
     if matches!(kinds.first(), Some(Kind::Holder { .. })) {
-        crate::sched::set_thread_env(Some(Box::new(Env { pid: BASE_PID, shared: shared.clone() })));
+        crate::sched::set_thread_env(Some(Box::new(Env::new(BASE_PID, shared.clone()))));
         let g = AuthorityLockGuard::try_acquire(&data, ROOT).expect("holder acquires an empty store");
         g.write_meta(format!("http://pid-{BASE_PID}")).expect("holder meta");
         crate::sched::set_thread_env(None);
@@ -420,7 +416,7 @@ fn make_world(sc: Scenario) -> (World, Vec<ActorBody>) {
         let pid = BASE_PID + id as u32;
         let pre = if id == 0 { pre_guard.take() } else { None };
         actors.push(Box::new(move |ctx: &ActorCtx| {
-            ctx.set_env(Box::new(Env { pid, shared: w.clone() }));
+            ctx.set_env(Box::new(Env::new(pid, w.clone())));
             match kind {
                 Kind::Holder { release } => {
                     let guard = pre.expect("holder guard");
@@ -646,7 +642,7 @@ fn check_exec(report: &Report, sc: Scenario, world: &World, exec: &Exec, sys: bo
     // its files alone) or recovers the store
     let before_lock = std::fs::read(ripd::authority_lock_path(&w.data)).ok();
     let before_meta = std::fs::read(ripd::authority_meta_path(&w.data)).ok();
-    crate::sched::set_thread_env(Some(Box::new(Env { pid: BASE_PID + 900, shared: w.clone() })));
+    crate::sched::set_thread_env(Some(Box::new(Env::new(BASE_PID + 900, w.clone()))));
     let late = server_loop(None, w);
     crate::sched::set_thread_env(None);
     match (&late, live.len()) {
@@ -792,7 +788,7 @@ pub fn run(opts: Opts) -> i32 {
          <=1 (quick) / <=2 (thorough) preemptions; conformance part: four scenario traces (three servers at once on an empty store; authority killed, then a new server; orderly shutdown, then a new server; shutdown with a request in flight and a contender starting inside the drain) replayed against REAL `rip serve` processes, lock.json / meta.json / process liveness sampled every 10 ms; \
          state = distinct executed schedule",
     );
-    report.assume("the server's private async recovery loop and the client's ensure_local_authority loop are restated branch by branch in the harness over the public primitives; pid reuse and clock skew are outside the model");
+    report.assume("the server loop is the real acquire_authority_lock_with_recovery behind clock, reachability, liveness and retry-sleep seams; the client ensure_local_authority loop (bin crate) is restated branch by branch in the harness over the public primitives; pid reuse and clock skew are outside the model");
     report.assume("time = number of retry sleeps of the observing actor; grace 1 sleep, server deadline 3, client deadline 4, one spawn per client (order of the real constants kept); time is otherwise unconstrained (a grace period or deadline may elapse at any point of any schedule)");
     report.assume("liveness and reachability are functions of the harness' actor table: an actor is alive until its injected crash, reachable while it serves (after its meta write, before its release); the leftover owner (pid 999) is dead");
     crate::sched::install_hooks();
